@@ -57,7 +57,8 @@ def distribute(computation_graph: ComputationGraph,
                agentsdef: Iterable[AgentDef],
                hints: DistributionHints=None,
                computation_memory=None,
-               communication_load=None):
+               communication_load=None,
+               timeout=None):
     """
     Generate a distribution for the dcop.
     This method uses a simple heuristic for distribution, with no guaranty of
@@ -109,6 +110,10 @@ def _distribute_try(computation_graph: ComputationGraph,
             var_hosted.update({c: a})
             agents_capa[a] -= computation_memory(
                 computation_graph.computation(c))
+            if agents_capa[a] < 0:
+                raise ImpossibleDistributionException(
+                    'Not enough capacity on {} for its must_host '
+                    'computations'.format(a))
 
     # First mimic original secp adhoc behavior
     for n in nodes:
@@ -126,24 +131,36 @@ def _distribute_try(computation_graph: ComputationGraph,
                           if len(set(mapping[a]).intersection(
                                  dependent_var)) > 0]
 
+            pair_footprint = computation_memory(n) + computation_memory(
+                computation_graph.computation(hostwith[0]))
+            candidates = [a for a in candidates
+                          if agents_capa[a] >= pair_footprint]
             candidates.sort(key=lambda x: len(mapping[a]))
             if candidates:
                 selected = candidates[0]
             else:
-                selected = choice(list(agents_capa.keys()))
+                fitting = [a for a in agents_capa
+                           if agents_capa[a] >= pair_footprint]
+                if not fitting:
+                    raise ImpossibleDistributionException(
+                        'No agent with enough capacity for {} and {}'
+                        .format(n.name, hostwith[0]))
+                selected = choice(fitting)
 
             mapping[selected].update({n.name, hostwith[0]})
             var_hosted[n.name] = selected
             var_hosted[hostwith[0]] = selected
-            agents_capa[selected] -= computation_memory(n)
+            agents_capa[selected] -= pair_footprint
 
     for n in nodes:
         if n.name in var_hosted:
             continue
         footprint = computation_memory(n)
         # Candidates : hints only with enough capacity
-        candidates = [(agents_capa[a], a) for a in hints.host_with(n.name)
-                      if agents_capa[a] > footprint]
+        candidates = [(agents_capa[var_hosted[c]], var_hosted[c])
+                      for c in hints.host_with(n.name)
+                      if c in var_hosted
+                      and agents_capa[var_hosted[c]] > footprint]
         # If no hinted agents has enough capacity, fall back to all agents
         if not candidates:
             candidates = [(c, a) for a, c in agents_capa.items()
@@ -174,9 +191,9 @@ def _distribute_try(computation_graph: ComputationGraph,
                     'Could not find feasible distribution after {} '
                     'attempts'.format(attempt))
             else:
-                _distribute_try(computation_graph, agents, hints,
-                                computation_memory, computation_graph,
-                                attempt+1)
+                return _distribute_try(computation_graph, agents, hints,
+                                       computation_memory, computation_graph,
+                                       attempt+1)
 
         mapping[selected].update({n.name})
         var_hosted[n.name] = selected
